@@ -119,6 +119,9 @@ def prepass(text, log):
     text, k = re.subn(r"crate::darling::util::path_to_string\(\s*__attr\.path\(\)\s*\)", "crate::attr_path_string(__attr)", text)
     if k:
         log.append(f"R11b:path_to_string(attr.path()) -> attr_path_string(attr) (the attribute's name, a function of the attribute) x{k}")
+    text, k = re.subn(r"crate::darling::export::identity::<\s*fn\(\)\s*->\s*crate::darling::(?:Result<Self>|export::Option<Self>)\s*>\(\s*([\w:]+)\s*\)\(\)", r"\1()", text)
+    if k:
+        log.append(f"R7:identity::<fn() -> T>(path)() -> path() x{k}")
     text, k = re.subn(r'&\s*format!\(\s*"((?:struct|enum) with )\{\}"\s*,\s*(\w+)\s*\)', r'&crate::fmt_with("\1", &\2)', text)
     if k:
         log.append(f"R11:format!(\"struct with {{}}\", set) -> fmt_with(prefix, &set) x{k}")
@@ -163,9 +166,31 @@ def field(ident, rename=None, default=None, skip=False, multiple=False, flatten=
             "flatten": flatten, "with": with_, "post": post}
 
 
-def struct_desc(name, fields, rename_all=None, cdefault=None, cpost=None, allow_unknown=False, trait="FromMeta"):
+def struct_desc(name, fields, rename_all=None, cdefault=None, cpost=None, allow_unknown=False, trait="FromMeta", from_word=False, from_none=False):
     return {"kind": "struct", "name": name, "trait": trait, "fields": fields, "rename_all": rename_all,
-            "cdefault": cdefault, "cpost": cpost, "allow_unknown": allow_unknown}
+            "cdefault": cdefault, "cpost": cpost, "allow_unknown": allow_unknown, "from_word": from_word, "from_none": from_none}
+
+
+def hook_blocks(d, gen_id, n, tps, w):
+    """Container-level `from_word = path` / `from_none = path`: the emitted hooks return exactly what the user's function returns."""
+    ta = f"<{tps}>" if tps else ""
+    for opt, fn, ret, spec in (("from_word", "from_word", "crate::darling::Result<Self>", "mkw"), ("from_none", "from_none", "crate::darling::export::Option<Self>", "mkn")):
+        if d.get(opt):
+            w(f"    //@fn @gen:{gen_id}.rs :: impl crate::darling::FromMeta for {n}{ta} :: fn {fn}")
+            w(f"    pub fn {fn}() -> (r: {ret})")
+            w(f"        ensures r == {spec}_{n}_spec::{ta if ta else '<>'}(),".replace("::<>", ""))
+            w("    //@body")
+            w("    //@end")
+
+
+def hook_decls(d, n, tps, w):
+    ta = f"<{tps}>" if tps else ""
+    if d.get("from_word"):
+        w(f"pub uninterp spec fn mkw_{n}_spec{ta}() -> Result<{n}{ta}>;")
+        w(f"#[verifier::external_body] pub fn mkw_{n}{ta}() -> (r: Result<{n}{ta}>) ensures r == mkw_{n}_spec::{ta if ta else '<>'}() {{ unimplemented!() }}".replace("::<>", ""))
+    if d.get("from_none"):
+        w(f"pub uninterp spec fn mkn_{n}_spec{ta}() -> Option<{n}{ta}>;")
+        w(f"#[verifier::external_body] pub fn mkn_{n}{ta}() -> (r: Option<{n}{ta}>) ensures r == mkn_{n}_spec::{ta if ta else '<>'}() {{ unimplemented!() }}".replace("::<>", ""))
 
 
 def eff_name(d, f):
@@ -184,6 +209,8 @@ def declaration(d):
         return elem_declaration(d)
     if d["kind"] == "supports":
         return supports_declaration(d)
+    if d["kind"] == "shape":
+        return shape_declaration(d)
     n = d["name"]
     cattrs = []
     if d["rename_all"]:
@@ -198,6 +225,10 @@ def declaration(d):
         cattrs.append(f"and_then = fix_{n}")
     if d["allow_unknown"]:
         cattrs.append("allow_unknown_fields")
+    if d.get("from_word"):
+        cattrs.append(f"from_word = mkw_{n}")
+    if d.get("from_none"):
+        cattrs.append(f"from_none = mkn_{n}")
     tps = ", ".join(f"T{i}" for i in range(len(d["fields"])))
     out = ""
     if cattrs:
@@ -311,6 +342,8 @@ def struct_template(d, gen_id, mode="full", ctx=None):
     if d["cpost"] == "map":
         w(f"pub uninterp spec fn map_{n}_spec<{tps}>(x: {n}<{tps}>) -> {n}<{tps}>;")
         w(f"#[verifier::external_body] pub fn map_{n}<{tps}>(x: {n}<{tps}>) -> (r: {n}<{tps}>) ensures r == map_{n}_spec(x) {{ unimplemented!() }}")
+    if not ctx:
+        hook_decls(d, n, tps, w)
     if d["cpost"] == "and_then":
         w(f"pub uninterp spec fn fix_{n}_spec<{tps}>(x: {n}<{tps}>) -> Result<{n}<{tps}>>;")
         w(f"#[verifier::external_body] pub fn fix_{n}<{tps}>(x: {n}<{tps}>) -> (r: Result<{n}<{tps}>>) ensures r == fix_{n}_spec(x) {{ unimplemented!() }}")
@@ -533,6 +566,7 @@ def struct_template(d, gen_id, mode="full", ctx=None):
     for x in D + DISCIPLINE:
         w(x)
     w("    //@end")
+    hook_blocks(d, gen_id, n, tps, w)
     w("}")
     text = "\n".join(o)
     if N == 0:
@@ -571,7 +605,7 @@ def make_unit(unit, d, mode="full", unit_span=False):
     hdr = HEADER.format(unit=unit)
     if unit_span:
         hdr = hdr.replace("//@include prelude/base.vrs", "//@include prelude/base_unitspan.vrs")
-    body = enum_template(d, unit, mode) if d["kind"] == "enum" else (elem_template(d, unit, mode) if d["kind"] == "elem" else struct_template(d, unit, mode))
+    body = shape_template(d, unit) if d["kind"] == "shape" else enum_template(d, unit, mode) if d["kind"] == "enum" else (elem_template(d, unit, mode) if d["kind"] == "elem" else struct_template(d, unit, mode))
     text = hdr + body + FOOTER
     return D.expand_includes(text)
 
@@ -595,6 +629,7 @@ def quick_structs():
         struct_desc("R11", [f("a", with_=True, post="and_then", multiple=True), f("b", with_=True, default="path")], cdefault="trait"),
         struct_desc("R12", [], allow_unknown=False),
         struct_desc("R13", [f("a", multiple=True), f("rest", flatten=True)], cpost="map"),
+        struct_desc("R14", [f("a"), f("b", default="trait")], from_word=True, from_none=True),
     ]
 
 
@@ -660,7 +695,8 @@ def random_struct(rng, name):
                 f["default"] = rng.choice(["trait", "path"])
         fields.append(f)
     return struct_desc(name, fields, rename_all=rng.choice(RULES), cdefault=rng.choice([None, None, "trait", "path"]),
-                       cpost=rng.choice([None, None, "map", "and_then"]), allow_unknown=rng.random() < 0.3)
+                       cpost=rng.choice([None, None, "map", "and_then"]), allow_unknown=rng.random() < 0.3,
+                       from_word=rng.random() < 0.15, from_none=rng.random() < 0.15)
 
 
 def pair_structs():
@@ -698,11 +734,15 @@ def expected_fns(d):
     """Which methods the emitted impl must define (C09: bare-word form only through a declared word variant)."""
     if d["kind"] == "enum":
         fns = {"from_list", "from_string"}
-        if any(v["word"] is True and not v["skip"] for v in d["variants"]):
+        if any(v["word"] is True and not v["skip"] for v in d["variants"]) or d.get("from_word"):
             fns.add("from_word")
+        if d.get("from_none"):
+            fns.add("from_none")
         return fns
+    if d["kind"] == "shape":
+        return {"from_word"} if d["shape"] == "unit" else {"from_meta"}
     if d["kind"] == "struct":
-        return {"from_list"}
+        return {"from_list"} | ({"from_word"} if d.get("from_word") else set()) | ({"from_none"} if d.get("from_none") else set())
     return None
 
 
@@ -737,8 +777,9 @@ def variant(ident, style="unit", rename=None, skip=False, word=False, fields=Non
     return {"ident": ident, "style": style, "rename": rename, "skip": skip, "word": word, "fields": fields or []}
 
 
-def enum_desc(name, variants, rename_all=None, allow_unknown=False):
-    return {"kind": "enum", "name": name, "trait": "FromMeta", "variants": variants, "rename_all": rename_all, "allow_unknown": allow_unknown}
+def enum_desc(name, variants, rename_all=None, allow_unknown=False, from_word=False, from_none=False):
+    return {"kind": "enum", "name": name, "trait": "FromMeta", "variants": variants, "rename_all": rename_all, "allow_unknown": allow_unknown,
+            "from_word": from_word, "from_none": from_none}
 
 
 def enum_vname(d, v):
@@ -768,6 +809,10 @@ def enum_declaration(d):
         ca.append(f'rename_all = {lit(d["rename_all"])}')
     if d["allow_unknown"]:
         ca.append("allow_unknown_fields")
+    if d.get("from_word"):
+        ca.append(f"from_word = mkw_{d['name']}")
+    if d.get("from_none"):
+        ca.append(f"from_none = mkn_{d['name']}")
     out = (f"#[darling({', '.join(ca)})] " if ca else "") + f"enum {d['name']}" + (f"<{tps}>" if k else "") + " { "
     for v, tp in zip(d["variants"], lay):
         a = []
@@ -821,6 +866,7 @@ def enum_template(d, gen_id, mode="full"):
         else:
             body.append(f"{v['ident']} {{ " + ", ".join(f"{f['ident']}: " + (f"Vec<{tp[i]}>" if f["multiple"] else tp[i]) for i, f in enumerate(v["fields"])) + " }")
     w(f"pub enum {n}<{tps}> {{ " + ", ".join(body) + " }")
+    hook_decls(d, n, tps, w)
     live = [(v, tp) for v, tp in zip(d["variants"], lay) if not v["skip"]]
     vnames = [enum_vname(d, v) for v, _ in live]
     vnames_seq = "seq![" + ", ".join(f"{lit(x)}@" for x in vnames) + "]"
@@ -899,6 +945,7 @@ def enum_template(d, gen_id, mode="full"):
         w("    //@body")
         w(f"    //@ closure 0: || -> (r: crate::darling::Result<Self>) ensures r == Ok::<Self, Error>({n}::{wordv['ident']})")
         w("    //@end")
+    hook_blocks(d, gen_id, n, tps, w)
     w("}")
     text = "\n".join(o)
     if K == 0:
@@ -918,6 +965,7 @@ def quick_enums():
         enum_desc("E4", [v("A", skip=True), v("B", skip=True)]),
         enum_desc("E5", [v("LoremIpsum"), v("DolorSit", word=True), v("Amet", "newtype", skip=True)], rename_all="kebab-case"),
         enum_desc("E6", [v("Strict", word="false"), v("Lax")]),
+        enum_desc("E7", [v("One"), v("Two", "newtype")], from_word=True, from_none=True),
     ]
 
 
@@ -1255,7 +1303,8 @@ def random_enum(rng, name):
                 fs.append(ff)
             v["fields"] = fs
         vs.append(v)
-    return enum_desc(name, vs, rename_all=rng.choice(RULES), allow_unknown=rng.random() < 0.3)
+    return enum_desc(name, vs, rename_all=rng.choice(RULES), allow_unknown=rng.random() < 0.3,
+                     from_word=(not have_word) and rng.random() < 0.2, from_none=rng.random() < 0.2)
 
 
 def random_elem(rng, name):
@@ -1283,3 +1332,43 @@ def random_enums_only(seedlist=range(1, 7)):
 
 def random_elems_only(seedlist=range(1, 7)):
     return [random_elem(random.Random(s * 991 + i), f"QD{s}_{i}") for s in seedlist for i in range(12)]
+
+
+# ================================================================================================ unit / newtype struct receivers
+def shape_desc(name, shape):
+    return {"kind": "shape", "name": name, "trait": "FromMeta", "shape": shape}
+
+
+def shape_declaration(d):
+    return f"struct {d['name']};" if d["shape"] == "unit" else f"struct {d['name']}<T0>(T0);"
+
+
+def shape_template(d, gen_id):
+    n = d["name"]
+    o = []
+    w = o.append
+    w(f"// ===== receiver {n}: {json.dumps(d)}")
+    if d["shape"] == "unit":
+        w(f"pub struct {n};")
+        w(f"impl {n} {{")
+        w(f"    //@fn @gen:{gen_id}.rs :: impl crate::darling::FromMeta for {n} :: fn from_word")
+        w("    pub fn from_word() -> (r: crate::darling::Result<Self>)")
+        w(f"        ensures r == Ok::<{n}, Error>({n}),")
+        w("    //@body")
+        w("    //@end")
+        w("}")
+    else:
+        w(f"pub struct {n}<T0>(pub T0);")
+        w(f"impl<T0: FromMeta> {n}<T0> {{")
+        w(f"    //@fn @gen:{gen_id}.rs :: impl crate::darling::FromMeta for {n}<T0> :: fn from_meta")
+        w("    pub fn from_meta(__item: &crate::darling::export::syn::Meta) -> (r: crate::darling::Result<Self>)")
+        w(f"        ensures r == match T0::meta_spec(*__item) {{ Ok(v) => Ok::<{n}<T0>, Error>({n}(v)), Err(e) => Err::<{n}<T0>, Error>(e_with_span(e, meta_span(*__item))) }},")
+        w("    //@body")
+        w("    //@ closure 0: |e: Error| -> (r: Error) ensures r == e_with_span(e, meta_span(*__item))")
+        w(f"    //@ replace R4: .map({n}) ==> .map(|__x: T0| -> (r: {n}<T0>) ensures r == {n}(__x) {{ {n}(__x) }})")
+        w("    //@end")
+        w("}")
+    return "\n".join(o)
+
+
+CORPORA["structs"] = (lambda prev: (lambda tier, seed: prev(tier, seed) + [shape_desc("U0", "unit"), shape_desc("N0", "newtype")]))(CORPORA["structs"])
